@@ -41,11 +41,15 @@ structure Prog (s0 : State) (P : List ObjId) (s : State) : Prop where
     s.cache.get k = none ∧ s.added.get k = none
   serialKept : ∀ j, ((s0.objs j).oid = none ∨ ∃ k, s0.added.get k = some j) →
     (s.objs j).serial = (s0.objs j).serial
+  statusNone : s0.sp = none → ∀ j, (s0.objs j).status ≠ .ghost → (s.objs j).status = (s0.objs j).status
+  markedCached : ∀ k j, marked s k → s0.cache.get k = some j →
+    marked s0 k ∨ (s0.objs j).status ≠ .ghost
 
 theorem Prog.refl {s : State} (h : Str [] s) : Prog s [] s := by
   refine ⟨h, h, rfl, rfl, Nat.le_refl _, fun _ _ h => h, fun _ _ => ⟨rfl, rfl, rfl⟩, fun _ h => h,
     fun _ h => h, ?_, fun _ _ h => h, fun _ _ h => Or.inl h, fun _ _ h => h, fun _ h => Or.inl h, rfl,
-    fun _ _ => Or.inl rfl, fun _ _ _ => rfl, fun _ => Or.inl rfl, ?_, fun _ _ => rfl⟩
+    fun _ _ => Or.inl rfl, fun _ _ _ => rfl, fun _ => Or.inl rfl, ?_, fun _ _ => rfl,
+    fun _ _ _ => rfl, fun _ _ h _ => Or.inl h⟩
   · intro i k h1 h2; rw [h1] at h2; cases h2
   · intro j hj; cases hj
 
@@ -90,7 +94,8 @@ structure StepSpec (s : State) (i k : Nat) (rest : List Nat) (s3 : State) (pushe
       (s3.objs j).status = .uptodate ∧
       ((s.objs j).status ≠ .ghost → (s3.objs j).val = (s.objs j).val ∧
         (s3.objs j).refs = (s.objs j).refs ∧ (s3.objs j).serial = (s.objs j).serial) ∧
-      ((s.objs j).status = .ghost → loadRec s k ≠ none)) ∨
+      ((s.objs j).status = .ghost → loadRec s k ≠ none) ∧
+      ((s.objs j).status = .ghost ∨ s.sp.isSome = true)) ∨
     (j ≠ i ∧ j ∈ pushed ∧ (s.objs j).oid = none ∧
       s3.objs j = { s.objs j with oid := (s3.objs j).oid, jar := true } ∧
       ∃ k', (s3.objs j).oid = some k' ∧ s.nextOid ≤ k' ∧ k' < s3.nextOid)
@@ -258,7 +263,8 @@ theorem storeOne_step {s : State} {i k : Nat} {rest : List Nat}
           (s3.objs j).status = .uptodate ∧
           ((s.objs j).status ≠ .ghost → (s3.objs j).val = (s.objs j).val ∧
             (s3.objs j).refs = (s.objs j).refs ∧ (s3.objs j).serial = (s.objs j).serial) ∧
-          ((s.objs j).status = .ghost → loadRec s k ≠ none)) ∨
+          ((s.objs j).status = .ghost → loadRec s k ≠ none) ∧
+          ((s.objs j).status = .ghost ∨ s.sp.isSome = true)) ∨
         (j ≠ i ∧ j ∈ pushed ∧ (s.objs j).oid = none ∧
           s3.objs j = { s.objs j with oid := (s3.objs j).oid, jar := true } ∧
           ∃ k', (s3.objs j).oid = some k' ∧ s.nextOid ≤ k' ∧ k' < s3.nextOid) := by
@@ -270,15 +276,19 @@ theorem storeOne_step {s : State} {i k : Nat} {rest : List Nat}
           · left; rw [h3, hi2, h1]
           · right; left
             rw [h3, hi2]
-            refine ⟨rfl, h1.2.2.2.1, h1.2.2.2.2.1, h1.2.2.1, fun hg => absurd h1.2.1 hg, fun _ => ?_⟩
+            refine ⟨rfl, h1.2.2.2.1, h1.2.2.2.2.1, h1.2.2.1, fun hg => absurd h1.2.1 hg, fun _ => ?_,
+              Or.inl h1.2.1⟩
             obtain ⟨k2, hk2, hl⟩ := h1.2.2.2.2.2
             rw [hk] at hk2; cases hk2; exact hl
         · right; left
           rw [h3.2.1, hi2]
           rcases hobj1 j with h1 | h1
-          · rw [h1]; simp
-            intro hg; exact absurd hg (by rw [← h1]; exact hng1)
-          · refine ⟨rfl, h1.2.2.2.1, h1.2.2.2.2.1, rfl, fun hg => absurd h1.2.1 hg, fun _ => ?_⟩
+          · have hsp2 : s.sp.isSome = true := by
+              rw [← h3.2.2, hstores2.1, hstores1.1]
+            rw [h1]; simp
+            exact ⟨fun hg => absurd hg (by rw [← h1]; exact hng1), Or.inr hsp2⟩
+          · refine ⟨rfl, h1.2.2.2.1, h1.2.2.2.2.1, rfl, fun hg => absurd h1.2.1 hg, fun _ => ?_,
+              Or.inl h1.2.1⟩
             obtain ⟨k2, hk2, hl⟩ := h1.2.2.2.2.2
             rw [hk] at hk2; cases hk2; exact hl
       · have h3 : s3.objs j = s2.objs j := by
@@ -706,9 +716,53 @@ theorem storeOne_prog {s0 s : State} {i k : Nat} {rest : List Nat} {s3 : State} 
       · exfalso
         have hji := h.1
         subst hji
-        exact h.2.2.2.2.2 hsg (hnorec hj hsg)
+        exact h.2.2.2.2.2.1 hsg (hnorec hj hsg)
       · exact (h.2.2.2.2.1 hsg).2.2
     · rw [h.2.2.2.1]
+
+  · -- statusNone
+    intro hsp0 j hg
+    rw [← hP.statusNone hsp0 j hg]
+    rcases hobj j with h | h | h
+    · rw [h]
+    · exfalso
+      rcases h.2.2.2.2.2.2 with h' | h'
+      · exact hg (hP.noGhost j h')
+      · have := hP.spSome; rw [hsp0] at this; rw [this] at h'; cases h'
+    · rw [h.2.2.2.1]
+  · -- markedCached
+    intro k' j hm hc
+    by_cases hmk : marked s k'
+    · exact hP.markedCached k' j hmk hc
+    · -- the mark is the new one
+      have hkk : k' = k := by
+        unfold marked at hm hmk
+        rw [sp.modified, sp.creating] at hm
+        by_cases hkk : k' = k
+        · exact hkk
+        · exfalso
+          apply hmk
+          rcases hm with hm | hm
+          · left
+            split at hm
+            · exact hm
+            · rcases List.mem_append.1 hm with h | h
+              · exact h
+              · simp only [List.mem_singleton] at h; exact absurd h hkk
+          · right
+            split at hm
+            · rename_i hcnd; exact absurd hcnd.2 hkk
+            · exact hm
+      subst hkk
+      right
+      have hji : j = i := hP.str.inj j i k' (hP.str.cacheS k' j (hP.cacheGrow k' j hc)) hk
+      subst hji
+      rcases hknown with h | h | h
+      · exact h.2
+      · have := (hP.base.addedS k' j (hP.addedSub k' j h)).2
+        rw [hc] at this; cases this
+      · have := hP.base.cacheS k' j hc
+        rw [h] at this; cases this
 
 /-! ### the `finally` clause: what is left on the stack after an error is disowned -/
 
@@ -838,6 +892,11 @@ theorem disownPending_prog {s0 s : State} {j : Nat} {P : List Nat}
     by_cases hxj : x = j
     · subst hxj; rw [hj]
     · rw [hobj x hxj]; exact hP.serialKept x hx
+  · intro hsp0 x hg
+    by_cases hxj : x = j
+    · subst hxj; rw [hj]
+    · rw [hobj x hxj]; exact hP.statusNone hsp0 x hg
+  · exact hP.markedCached
 
 theorem dropStack_prog {s0 : State} : ∀ (P : List Nat) (s : State), Prog s0 P s →
     (∀ j ∈ P, (s0.objs j).oid = none) → P.Nodup → Prog s0 [] (dropStack s P) := by
